@@ -278,20 +278,22 @@ def run_check(pid, tier, jobs=None):
         print("HARNESS-ERROR property=%s cannot build harness instances:\n%s" % (pid, traceback.format_exc()))
         return EXIT_ERROR
     pre = None
+    pre_error = None
     if hasattr(mod, "prechecks"):
         # translator / model validation (concrete differential runs) — any failure is a harness error
         try:
             pre = mod.prechecks(tier, seed)
         except BaseException:
-            print("HARNESS-ERROR property=%s model validation failed:\n%s" % (pid, traceback.format_exc()))
-            return EXIT_ERROR
+            # a failed validation makes the run inconclusive (exit 3) — unless an instance below produces a violation that
+            # replays on the real code, which stands on its own (the validation vectors run the code under test too)
+            pre_error = "model validation failed:\n%s" % traceback.format_exc()
 
     ctx = mp.get_context("fork")
     results = {}
     agg = dict(paths=0, aborted=0, queries=0, solver_time=0.0, proves=0, validated=0)
     encoded = set()
     samples = []
-    errors = []
+    errors = [pre_error] if pre_error else []
     violations = []
     notes = []
     budget = float(os.environ.get("VERIF_BUDGET_S", "1500" if tier == "quick" else "10800"))
